@@ -156,6 +156,21 @@ pub fn route(cfg: &CfgSpec, target: &str, lvl: u8) -> Vec<usize> {
     }
 }
 
+/// Threshold of the effective logger of `target`.
+pub fn threshold(cfg: &CfgSpec, target: &str) -> u8 {
+    let tparts: Vec<&str> = target.split("::").collect();
+    let mut best = cfg.root_level;
+    let mut best_len = 0;
+    for l in &cfg.loggers {
+        let lp: Vec<&str> = l.name.split("::").collect();
+        if lp.len() <= tparts.len() && lp[..] == tparts[..lp.len()] && lp.len() > best_len {
+            best = l.level;
+            best_len = lp.len();
+        }
+    }
+    best
+}
+
 /// Appenders of a logger: its own, then (if additive) its parent's chain.
 fn chain(cfg: &CfgSpec, l: &LoggerSpec) -> Vec<usize> {
     let mut out = l.appenders.clone();
@@ -244,18 +259,22 @@ struct Obs {
 
 pub struct LShared {
     obs: Mutex<Vec<Obs>>,
-    errors: Mutex<Vec<String>>,
-    handle: OnceLock<Handle>,
-    logger: OnceLock<Arc<log4rs::Logger>>,
-    scn: Scn,
-    sink: Arc<Sink>,
-    ops: Mutex<Vec<lin::Op>>,
+    pub errors: Mutex<Vec<String>>,
+    pub handle: OnceLock<Handle>,
+    pub logger: OnceLock<Arc<log4rs::Logger>>,
+    pub scn: Scn,
+    pub sink: Arc<Sink>,
+    pub ops: Mutex<Vec<lin::Op>>,
     /// record id -> (target, level)
     meta: Mutex<HashMap<RecId, (String, u8)>>,
-    overlaps: Mutex<u64>,
+    pub overlaps: Mutex<u64>,
     writes_in_flight: Mutex<u32>,
     reads_in_flight: Mutex<u32>,
     nested_seq: Mutex<u16>,
+    /// C02: records go through the log macros and the process-global logger
+    pub global: bool,
+    /// C02 / init_raw_config: version 0 uses real file appenders in this directory
+    pub file_dir: Option<std::path::PathBuf>,
 }
 
 impl std::fmt::Debug for LShared {
@@ -339,6 +358,29 @@ impl Filter for ScriptFilter {
     }
 }
 
+pub fn make_cap(version: u32, idx: usize, spec: AppSpec, sh: Arc<LShared>) -> Box<dyn Append> {
+    Box::new(CapAppender { version, idx, spec, sh })
+}
+
+pub fn new_shared(scn: Scn, sink: Arc<Sink>, global: bool, file_dir: Option<std::path::PathBuf>) -> Arc<LShared> {
+    Arc::new(LShared {
+        obs: Mutex::new(vec![]),
+        errors: Mutex::new(vec![]),
+        handle: OnceLock::new(),
+        logger: OnceLock::new(),
+        scn,
+        sink,
+        ops: Mutex::new(vec![]),
+        meta: Mutex::new(HashMap::new()),
+        overlaps: Mutex::new(0),
+        writes_in_flight: Mutex::new(0),
+        reads_in_flight: Mutex::new(0),
+        nested_seq: Mutex::new(0),
+        global,
+        file_dir,
+    })
+}
+
 pub fn build_config(spec: &CfgSpec, version: u32, sh: &Arc<LShared>) -> Config {
     let mut b = Config::builder();
     for (i, a) in spec.appenders.iter().enumerate() {
@@ -358,7 +400,7 @@ pub fn build_config(spec: &CfgSpec, version: u32, sh: &Arc<LShared>) -> Config {
         .expect("generated configuration must be valid")
 }
 
-fn do_set_config(sh: &Arc<LShared>, v: u32, nested: bool) {
+pub fn do_set_config(sh: &Arc<LShared>, v: u32, nested: bool) {
     let cfg = build_config(&sh.scn.configs[v as usize], v, sh);
     let h = sh.handle.get().unwrap().clone();
     let s0 = kernel::stamp();
@@ -378,8 +420,7 @@ fn do_set_config(sh: &Arc<LShared>, v: u32, nested: bool) {
 }
 
 /// Logs one record through the real logger and checks it (C03 / C15-I1).
-fn do_log(sh: &Arc<LShared>, id: RecId, target: &str, lvl: u8) {
-    let logger = sh.logger.get().unwrap().clone();
+pub fn do_log(sh: &Arc<LShared>, id: RecId, target: &str, lvl: u8) {
     sh.meta.lock().unwrap().insert(id, (target.to_string(), lvl));
     let text = format!("{}.{}", id.tid, id.n);
     let s0 = kernel::stamp();
@@ -390,19 +431,34 @@ fn do_log(sh: &Arc<LShared>, id: RecId, target: &str, lvl: u8) {
             *sh.overlaps.lock().unwrap() += 1;
         }
     }
-    log::Log::log(&*logger, &log::Record::builder().level(level(lvl)).target(target).args(format_args!("{}", text)).build());
+    if sh.global {
+        log::log!(target: target, level(lvl), "{}", text);
+    } else {
+        let logger = sh.logger.get().unwrap().clone();
+        log::Log::log(&*logger, &log::Record::builder().level(level(lvl)).target(target).args(format_args!("{}", text)).build());
+    }
     *sh.reads_in_flight.lock().unwrap() -= 1;
     let s1 = kernel::stamp();
     kernel::note("log.return", &id.to_string());
     // observations of this record
-    let mine: Vec<(u32, Ev)> = sh.obs.lock().unwrap().iter().filter(|o| o.rec == id).map(|o| (o.version, o.ev.clone())).collect();
+    let mut mine: Vec<(u32, Ev)> = sh.obs.lock().unwrap().iter().filter(|o| o.rec == id).map(|o| (o.version, o.ev.clone())).collect();
+    if let Some(dir) = &sh.file_dir {
+        // version 0 was loaded through init_raw_config: real file appenders, one file per appender
+        for app in 0..sh.scn.configs[0].appenders.len() {
+            if let Ok(t) = std::fs::read_to_string(dir.join(format!("v0a{}.log", app))) {
+                for _ in t.lines().filter(|l| *l == text) {
+                    mine.push((0, Ev::Deliver { app, failed: false }));
+                }
+            }
+        }
+    }
     let prop: &str = &sh.scn.prop;
     let p: &'static str = if prop == "C15" { "C15" } else if prop == "C02" { "C02" } else { "C03" };
     let mut versions: Vec<u32> = mine.iter().map(|m| m.0).collect();
     versions.sort();
     versions.dedup();
     if versions.len() > 1 {
-        sh.sink.fail("C15", "C15-I1", "mixture", format!("record {} ({:?}, level {}) was handled by stubs of configurations {:?} — a mixture", id, target, lvl, versions));
+        sh.sink.fail(if p == "C02" { "C02" } else { "C15" }, if p == "C02" { "C02-I3" } else { "C15-I1" }, "mixture", format!("record {} ({:?}, level {}) was handled by stubs of configurations {:?} — a mixture", id, target, lvl, versions));
         return;
     }
     let nconf = sh.scn.configs.len() as u32;
@@ -482,7 +538,7 @@ fn classify(p: &'static str, m: &(&'static str, String)) -> (&'static str, &'sta
 // -------------------------------------------------------------- generator
 
 const NAMES: [&str; 9] = ["a", "a::b", "a::b::c", "ab", "b", "b::a", "a::bc", "a::b::c::d", "b::a::b"];
-const TARGETS: [&str; 16] = ["a", "a::b", "a::b::c", "a::b::c::d::e", "ab", "ab::x", "a::bc", "a::b::cd", "b", "b::a::z", "", "a:", "a:::b", "::a", "a::", "zzz"];
+pub const TARGETS: [&str; 16] = ["a", "a::b", "a::b::c", "a::b::c::d::e", "ab", "ab::x", "a::bc", "a::b::cd", "b", "b::a::z", "", "a:", "a:::b", "::a", "a::", "zzz"];
 
 pub fn gen_cfg(rng: &mut Rng, nconf: u32, prop: &str, _version: u32) -> CfgSpec {
     let napp = rng.range(1, 4) as usize;
@@ -580,6 +636,8 @@ pub fn execute(scn: &Scn, opts: &ExecOpts) -> Outcome {
         writes_in_flight: Mutex::new(0),
         reads_in_flight: Mutex::new(0),
         nested_seq: Mutex::new(0),
+        global: false,
+        file_dir: None,
     });
     let sched = opts.sched.clone().unwrap_or(Sched::Prng { seed: scn.sched_seed, policy: scn.policy.clone() });
     let k = common::begin(RunCfg { sched, trace: opts.trace, start_ns: common::T0_NS, tz: None, faults: vec![], crash: None, rand_script: vec![], step_cap: 50_000 });
@@ -632,8 +690,11 @@ pub fn execute(scn: &Scn, opts: &ExecOpts) -> Outcome {
     // C15-I2: register linearizability of the history
     if !sink.any() && out.harness_error.is_none() && scn.prop == "C15" {
         let ops = sh.ops.lock().unwrap().clone();
-        if let Some(h) = lin::check(&ops, 0) {
-            sink.fail("C15", "C15-I2", "not-linearizable", format!("history is not linearizable as a register of configuration versions: {}", h));
+        if let Some(h) = lin::check_regular(&ops, 0) {
+            sink.fail("C15", "C15-I2", "stale-or-foreign-config", format!("a record was routed under a configuration that was neither in force nor being installed: {}", h));
+        } else if lin::check(&ops, 0).is_some() {
+            // stronger than the property (two sequential records may see new then old while a swap is in flight)
+            sink.probe("histories_regular_but_not_linearizable", 1);
         }
     }
     let overlaps = *sh.overlaps.lock().unwrap();
